@@ -26,6 +26,11 @@ def main(argv: List[str]) -> int:
             nm = next((v for k, v in m.items() if k.endswith(".name.s")), None)
             return True, {"key": f"{gh.DOTNET_REL}::lsp_to_base_types:post", "what": f"dotnet lsp_to_base_types maps base type {nm!r} differently from the documented mapping ({gh.DOTNET_BASE.get(nm)!r}) or raises", "base_type": nm}
         verify(run, stats, world, interp, fi, c, f"{gh.DOTNET_REL}::lsp_to_base_types", on_fail, lambda msg: run.notes.append(f"lsp_to_base_types outside the verified subset ({msg}); the item-level comparison of every emitted type stands in"))
+    from lib.helpers_verify import verify_helper_items
+
+    w_, i_, fi_, c_, l_ = gh.items_null_contract(gh.DOTNET_REL, "has_null_base_type")
+    if fi_ is not None:
+        verify_helper_items(run, stats, w_, i_, [(fi_, c_, l_)])
     tmp = gen.scratch()
     n = fails = 0
     files = 0
